@@ -73,7 +73,13 @@ impl RtpsWriterProxy {
     }
 
     pub fn push_data_frag(&mut self, submessage: DataFragSubmessage) {
-        if !self.frag_buffer.contains(&submessage) {
+        // A fragment is identified by (writer_sn, fragment_starting_num): copies addressed to
+        // another reader of the same participant differ only in the reader id and must not be
+        // buffered (and counted by reconstruct_data_from_frag) a second time.
+        if !self.frag_buffer.iter().any(|f| {
+            f.writer_sn() == submessage.writer_sn()
+                && f.fragment_starting_num() == submessage.fragment_starting_num()
+        }) {
             self.frag_buffer.push(submessage);
         }
     }
